@@ -214,16 +214,13 @@ func (g *Gen) val(fd FD, depth int) Val {
 // usable field numbers for unknown records: not used by the message at this level,
 // not in the reserved implementation range.
 func (g *Gen) unknownNumber(d MD) uint64 {
-	cands := []uint64{1, 2, 3, 15, 16, 17, 100, 2047, 2048, 5000, 262143, 262144, 18999, 20000, 33554431, 33554432, 536870911}
+	cands := []uint64{1, 2, 3, 15, 16, 17, 100, 2047, 2048, 5000, 262143, 262144, 18999, 19000, 19500, 19999, 20000, 33554431, 33554432, 268435455, 268435456, 536870911}
 	for tries := 0; tries < 50; tries++ {
 		var n uint64
 		if g.R.Intn(3) == 0 {
 			n = uint64(1 + g.R.Intn(536870911))
 		} else {
 			n = cands[g.R.Intn(len(cands))]
-		}
-		if n >= 19000 && n <= 19999 {
-			continue
 		}
 		if d.Fields().ByNumber(protoreflect.FieldNumber(n)) != nil {
 			continue
